@@ -53,7 +53,7 @@ fn value_of_slot(s: Slot) -> u32 {
 struct Run<L: Language, N: Analysis<L>> {
     eg: EGraph<L, N>,
     names: Vec<u32>,
-    handles: Vec<(Term, AppliedId)>,
+    handles: Vec<(Term, Option<AppliedId>)>,
     out: Vec<String>,
     with_data: bool,
 }
@@ -84,15 +84,54 @@ impl<L: Language + 'static, N: Analysis<L> + 'static> Run<L, N> where N::Data: s
         L::from_syntax(&elems).expect("from_syntax")
     }
     fn handle(&self, t: &Term) -> Option<AppliedId> {
-        self.handles.iter().find(|(x, _)| x == t).map(|(_, h)| h.clone())
+        self.handles.iter().find(|(x, _)| x == t).and_then(|(_, h)| h.clone())
     }
     fn add(&mut self, t: &Term) -> AppliedId {
         let Term::Node(_, args) = t;
         for a in args { if let Arg::Child(c) = a { if self.handle(c).is_none() { self.add(c); } } }
         let n = self.node(t);
         let h = self.eg.add(n);
-        if self.handle(t).is_none() { self.handles.push((t.clone(), h.clone())); }
+        if !self.handles.iter().any(|(x, _)| x == t) { self.handles.push((t.clone(), Some(h.clone()))); }
         h
+    }
+    fn pat_text(&self, toks: &[String], pos: &mut usize) -> String {
+        // pattern s-expression over name indices and ?vars -> pattern text with real slot names
+        if toks[*pos] != "(" { let t = toks[*pos].clone(); *pos += 1; return if t.starts_with('?') { t } else { slot_of_value(self.names[t.parse::<usize>().unwrap()]).to_string() }; }
+        *pos += 1;
+        let mut out = format!("({}", toks[*pos]); *pos += 1;
+        while toks[*pos] != ")" { out.push(' '); out.push_str(&self.pat_text(toks, pos)); }
+        *pos += 1; out.push(')'); out
+    }
+    fn lookup_pattern(&self, p: &Pattern<L>, sub: &Subst) -> Option<AppliedId> {
+        match p {
+            Pattern::PVar(v) => sub.get(v).cloned(),
+            Pattern::ENode(n, cs) => {
+                let mut n = n.clone();
+                let mut kids = Vec::new();
+                for c in cs { kids.push(self.lookup_pattern(c, sub)?); }
+                for (r, k) in n.applied_id_occurrences_mut().into_iter().zip(kids.into_iter()) { *r = k; }
+                self.eg.lookup(&n)
+            }
+            Pattern::Subst(..) => None,
+        }
+    }
+    fn lookup_full(&self, t: &Term) -> Option<AppliedId> {
+        if let Some(h) = self.handle(t) { return Some(h); }
+        let Term::Node(op, args) = t;
+        let mut elems = vec![SyntaxElem::String(op.clone())];
+        for a in args {
+            match a {
+                Arg::Name(i) => elems.push(SyntaxElem::Slot(slot_of_value(self.names[*i]))),
+                Arg::Child(c) => elems.push(SyntaxElem::AppliedId(self.lookup_full(c)?)),
+            }
+        }
+        let n = L::from_syntax(&elems).expect("from_syntax");
+        self.eg.lookup(&n)
+    }
+    fn describe(&self, h: &AppliedId) -> String {
+        let c = self.eg.find_applied_id(h);
+        let mut vals: Vec<String> = c.m.iter().map(|(_, v)| { let n = self.name_of(v); if n.starts_with('x') { "fresh".to_string() } else { n } }).collect(); vals.sort();
+        format!("{{\"id\":{},\"vals\":[{}]}}", c.id.0, vals.iter().map(|x| jstr(x)).collect::<Vec<_>>().join(","))
     }
     fn group_count(&self, id: Id) -> usize {
         // number of permutations pi of the class's slots with eq(identity invocation, permuted invocation): public API only
@@ -107,12 +146,14 @@ impl<L: Language + 'static, N: Analysis<L> + 'static> Run<L, N> where N::Data: s
         });
         cnt
     }
-    fn snapshot(&mut self, op: &str, extra: &str) {
+    fn snapshot(&mut self, op: &str, extra: &str) { self.snapshot2(op, extra, true) }
+    fn snapshot2(&mut self, op: &str, extra: &str, with_check: bool) {
         let eg = &self.eg;
         let mut s = String::new();
         s.push_str(&format!("{{\"op\":{}", jstr(op)));
         let mut canon = Vec::new();
         for (_, h) in &self.handles {
+            let Some(h) = h else { canon.push("null".to_string()); continue; };
             let c = eg.find_applied_id(h);
             let c2 = eg.find_applied_id(&c);
             let mut vals: Vec<String> = c.m.iter().map(|(_, v)| self.name_of(v)).collect(); vals.sort();
@@ -124,7 +165,7 @@ impl<L: Language + 'static, N: Analysis<L> + 'static> Run<L, N> where N::Data: s
                 hvals.iter().map(|x| jstr(x)).collect::<Vec<_>>().join(",")));
         }
         s.push_str(&format!(",\"canon\":[{}]", canon.join(",")));
-        let rows: Vec<String> = self.handles.iter().map(|(_, a)| format!("[{}]", self.handles.iter().map(|(_, b)| eg.eq(a, b).to_string()).collect::<Vec<_>>().join(","))).collect();
+        let rows: Vec<String> = self.handles.iter().map(|(_, a)| format!("[{}]", self.handles.iter().map(|(_, b)| match (a, b) { (Some(a), Some(b)) => eg.eq(a, b).to_string(), _ => "false".to_string() }).collect::<Vec<_>>().join(","))).collect();
         s.push_str(&format!(",\"eq\":[{}]", rows.join(",")));
         let ids = eg.ids();
         s.push_str(&format!(",\"live\":[{}]", ids.iter().map(|i| i.0.to_string()).collect::<Vec<_>>().join(",")));
@@ -139,9 +180,9 @@ impl<L: Language + 'static, N: Analysis<L> + 'static> Run<L, N> where N::Data: s
         }
         s.push_str(&format!(",\"classes\":{{{}}}", cls.join(",")));
         // the crate's own consistency check, then the listed conditions
-        let chk = catch_unwind(AssertUnwindSafe(|| eg.check()));
+        let chk = if with_check { catch_unwind(AssertUnwindSafe(|| eg.check())) } else { Ok(()) };
         let mut bad: Vec<String> = Vec::new();
-        if chk.is_ok() {
+        if chk.is_ok() && with_check {
             for i in &ids {
                 let sl = eg.slots(*i);
                 for n in eg.enodes(*i) {
@@ -151,8 +192,8 @@ impl<L: Language + 'static, N: Analysis<L> + 'static> Run<L, N> where N::Data: s
                 }
             }
         }
-        s.push_str(&format!(",\"check\":{{\"check\":{}{}}}", if chk.is_ok() { jstr("ok") } else { jstr("panic") },
-            if bad.is_empty() { String::new() } else { format!(",\"consistency\":[{}]", bad.join(",")) }));
+        if with_check { s.push_str(&format!(",\"check\":{{\"check\":{}{}}}", if chk.is_ok() { jstr("ok") } else { jstr("panic") },
+            if bad.is_empty() { String::new() } else { format!(",\"consistency\":[{}]", bad.join(",")) })); }
         s.push_str(extra);
         s.push('}');
         self.out.push(s);
@@ -164,11 +205,12 @@ fn permute(v: &mut Vec<usize>, k: usize, f: &mut dyn FnMut(&[usize])) {
     for i in k..v.len() { v.swap(k, i); permute(v, k + 1, f); v.swap(k, i); }
 }
 
-fn run_history<L: Language + 'static, N: Analysis<L> + Default + 'static>(names: Vec<u32>, ops: &[String], with_data: bool) -> (Vec<String>, Option<String>) where N::Data: std::fmt::Debug {
+fn run_history<L: Language + 'static, N: Analysis<L> + Default + 'static>(names: Vec<u32>, ops: &[String], with_data: bool, light: bool) -> (Vec<String>, Option<String>) where N::Data: std::fmt::Debug {
     let mut r: Run<L, N> = Run { eg: EGraph::new(N::default()), names, handles: Vec::new(), out: Vec::new(), with_data };
     let mut panic_msg = None;
-    r.snapshot("new", "");
-    for line in ops {
+    r.snapshot2("new", "", !light);
+    let nops = ops.len();
+    for (opi, line) in ops.iter().enumerate() {
         let toks = tokenize(line);
         let res = catch_unwind(AssertUnwindSafe(|| {
             let mut extra = String::new();
@@ -176,7 +218,7 @@ fn run_history<L: Language + 'static, N: Analysis<L> + Default + 'static>(names:
                 "add" => { let mut p = 1; let t = parse_term(&toks, &mut p); r.add(&t); }
                 "union" => {
                     let mut p = 1; let a = parse_term(&toks, &mut p); let b = parse_term(&toks, &mut p);
-                    let (ha, hb) = (r.handle(&a).unwrap(), r.handle(&b).unwrap());
+                    let (ha, hb) = (r.handle(&a).expect("union of a term without handle"), r.handle(&b).expect("union of a term without handle"));
                     let ret = r.eg.union(&ha, &hb);
                     extra = format!(",\"union_ret\":{}", ret);
                 }
@@ -194,9 +236,46 @@ fn run_history<L: Language + 'static, N: Analysis<L> + Default + 'static>(names:
                         match &old { Some(o) => r.eg.eq(&h, o).to_string(), None => "null".to_string() },
                         match &lk { Some(l) => r.eg.eq(l, &h).to_string(), None => "null".to_string() });
                 }
+                "probe" => {
+                    let mut p = 1; let t = parse_term(&toks, &mut p);
+                    let h = r.lookup_full(&t);
+                    extra = format!(",\"probe\":{{\"found\":{}}}", h.is_some());
+                    if !r.handles.iter().any(|(x, _)| *x == t) { r.handles.push((t.clone(), h)); }
+                }
+                "ematch" => {
+                    let mut p = 1; let txt = r.pat_text(&toks, &mut p);
+                    let pat = Pattern::<L>::parse(&txt).expect("pattern text");
+                    let before = (r.eg.progress().number_of_classes, r.eg.progress().number_of_live_classes, r.eg.progress().sum_of_slots, r.eg.progress().sum_of_symmetries, r.eg.total_number_of_nodes());
+                    let ms = ematch_all(&r.eg, &pat);
+                    let after = (r.eg.progress().number_of_classes, r.eg.progress().number_of_live_classes, r.eg.progress().sum_of_slots, r.eg.progress().sum_of_symmetries, r.eg.total_number_of_nodes());
+                    let mut items: Vec<String> = Vec::new();
+                    for sub in &ms {
+                        let mut bound: Vec<String> = sub.keys().cloned().collect(); bound.sort();
+                        let inst = r.lookup_pattern(&pat, sub);
+                        let mut binds: Vec<(String, String)> = sub.iter().map(|(k, v)| (k.clone(), r.describe(v))).collect(); binds.sort();
+                        items.push(format!("{{\"binds\":{{{}}},\"bound\":[{}],\"found\":{},\"inst\":{}}}", binds.iter().map(|(k, v)| format!("{}:{}", jstr(k), v)).collect::<Vec<_>>().join(","),
+                            bound.iter().map(|x| jstr(x)).collect::<Vec<_>>().join(","), inst.is_some(), match &inst { Some(i) => r.describe(i), None => "null".to_string() }));
+                    }
+                    extra = format!(",\"ematch\":{{\"unchanged\":{},\"matches\":[{}]}}", before == after, items.join(","));
+                }
+                "rewrite" => {
+                    // rewrite name | lhs | rhs ; name | lhs | rhs ...
+                    let rest = line["rewrite".len()..].to_string();
+                    let mut rws: Vec<Rewrite<L, N>> = Vec::new();
+                    for part in rest.split(';') {
+                        let f: Vec<&str> = part.split('|').collect();
+                        if f.len() != 3 { continue; }
+                        let (lt, rt) = (tokenize(f[1]), tokenize(f[2]));
+                        let (mut p1, mut p2) = (0, 0);
+                        let (l, rr) = (r.pat_text(&lt, &mut p1), r.pat_text(&rt, &mut p2));
+                        rws.push(Rewrite::new(f[0].trim(), &l, &rr));
+                    }
+                    let ret = apply_rewrites(&mut r.eg, &rws);
+                    extra = format!(",\"rewrite_ret\":{}", ret);
+                }
                 x => panic!("natdiff: unknown op {}", x),
             }
-            r.snapshot(line, &extra);
+            r.snapshot2(line, &extra, !light || opi + 1 == nops);
         }));
         if let Err(e) = res {
             let msg = if let Some(s) = e.downcast_ref::<String>() { s.clone() } else if let Some(s) = e.downcast_ref::<&str>() { s.to_string() } else { "panic".to_string() };
@@ -393,6 +472,7 @@ fn run_case(case: &[String]) -> String {
     // case <id> <lang> <analysis> <f0> <named_max> ; names v0 v1 ... ; ops...
     let head: Vec<&str> = case[0].split_whitespace().collect();
     let (id, lang, analysis, f0, named): (&str, &str, &str, u32, u32) = (head[1], head[2], head[3], head[4].parse().unwrap(), head[5].parse().unwrap());
+    let light = head.len() > 6 && head[6] == "light";
     let names: Vec<u32> = case[1].split_whitespace().skip(1).map(|x| x.parse().unwrap()).collect();
     // bring the thread's slot table into the state the template assumes
     let need_named = names.iter().filter(|v| *v % 4 == 2).map(|v| (v - 2) / 4 + 1).max().unwrap_or(0).min(named);
@@ -400,10 +480,10 @@ fn run_case(case: &[String]) -> String {
     let mut k = 1u32; while k < f0 { let _ = Slot::fresh(); k += 4; }
     let ops: Vec<String> = case[2..].to_vec();
     let (steps, panic_msg) = match (lang, analysis) {
-        ("Lf", "()") => run_history::<Lf, ()>(names, &ops, false),
-        ("Lb", "()") => run_history::<Lb, ()>(names, &ops, false),
-        ("Lb", "MinSize") => run_history::<Lb, MinSize>(names, &ops, true),
-        ("Lb", "Depth") => run_history::<Lb, Depth>(names, &ops, true),
+        ("Lf", "()") => run_history::<Lf, ()>(names, &ops, false, light),
+        ("Lb", "()") => run_history::<Lb, ()>(names, &ops, false, light),
+        ("Lb", "MinSize") => run_history::<Lb, MinSize>(names, &ops, true, light),
+        ("Lb", "Depth") => run_history::<Lb, Depth>(names, &ops, true, light),
         _ => panic!("natdiff: unsupported instantiation {} {}", lang, analysis),
     };
     format!("{{\"case\":{},\"steps\":[{}],\"panic\":{}}}", jstr(id), steps.join(","), match panic_msg { Some(m) => jstr(&m), None => "null".to_string() })
